@@ -108,6 +108,14 @@ def rename_slides(data: bytes, mode: str, seed: int = 0) -> bytes:
         new = [1] + [n + 2 * i for i in range(1, n - 1)] + [n] if n >= 3 else ([2 * n + 1, n] if n == 2 else [nums[0] + 4])
         if n >= 3:
             new[1:-1] = list(reversed(new[1:-1]))
+    elif mode in ("midnext", "midnext2"):
+        # first and last already carry the names their positions call for; one in the middle is called slide<N+1> (resp. N+2)
+        n = len(nums)
+        new = list(range(1, n + 1))
+        if n >= 3:
+            new[1 + (seed % (n - 2))] = n + (1 if mode == "midnext" else 2)
+        else:
+            new = [k + 1 for k in new]
     elif mode == "firstbig":
         n = len(nums)
         new = [n + 1] + list(range(1, n - 1)) + [n] if n >= 3 else [k + 3 for k in nums]
